@@ -218,6 +218,10 @@ func namedShapes() []shaped {
 		{"[]*time.Duration{nil}", []*time.Duration{nil, new(time.Duration)}}, {"[2]*Enum", [2]*Enum{nil, new(Enum)}}, {"map[*Enum]Leaf", map[*Enum]Leaf{nil: l, new(Enum): l}},
 		{"map[*time.Time]*Leaf", map[*time.Time]*Leaf{nil: &l}}, {"[]error", []error{nil, fmt.Errorf("x"), (*myErr)(nil)}}, {"[]fmt.Stringer", []fmt.Stringer{nil, Enum(1), (*Enum)(nil)}},
 		{"map[string][]*Enum", map[string][]*Enum{"k": {nil, nil}, "j": nil}}, {"StringerHolder", &StringerHolder{L: []*Enum{nil, nil}, D: []*time.Duration{nil}, M: map[*Enum]*Leaf{nil: &l}, E: []error{(*myErr)(nil), nil}, K: map[Enum]Leaf{1: l, 2: l}}},
+		// URL-looking strings with the query / fragment markers in every order
+		{"url #/?", "http://h/#/user/list?k=a1"}, {"url #?", "#?"}, {"url ?#", "?#"}, {"url ??", "??k=1"}, {"url frag only", "http://h/p#top"}, {"url ?k#", "http://h/p?k=a1#top"},
+		{"url enc #?", "http%3A%2F%2Fh%2F%23%2Fp%3Fk%3Da1"}, {"url ?", "?"}, {"url #", "#"}, {"url =&", "http://h/p?=&=&&"}, {"url k only", "k"}, {"url &&&", "&&&"}, {"url %", "http://h/p?k=%"},
+		{"url ?k=#", "http://h/p?k=#"}, {"url long", "http://h/p?k=" + strings.Repeat("a1&k=", 300)},
 		{"DynHolder", &DynHolder{L: []interface{}{[]int{1}, []int{1}}, A: [2]interface{}{map[string]int{}, map[string]int{}}, X: []XI{{X: []int{1}}}, I: []int{1}}},
 	}
 }
